@@ -26,7 +26,7 @@ func q(d time.Duration) time.Duration { return d }
 
 var props = map[string]propCfg{
 	"C01": {QuickShards: 8, ThoroughShards: 16, Level: "exploration",
-		Rule:        "rapid generators draw an abstract packet of each of the 15 types (every optional field independently present/absent, boundary-biased lengths 0,1,127,128,16383,16384,65534,65535, PUBLISH payload and property section padded to length boundaries, correlated fields, shaped lists) plus how it is built: setter call order, zero setters called or skipped, decoy calls (same setter first with another value), repeated identical calls, read-only probes between calls, caller-owned variadic slices reused afterwards, and a prelude of unrelated decodes; oracle = WriteTo->ReadPacket round trip compared accessor by accessor with the model and byte-identical re-encoding. Non-trivial = at least one optional field present, or a boundary length, or a list with >= 2 elements; distinct = 64-bit FNV fingerprint of (model, call plan).",
+		Rule:        "rapid generators draw an abstract packet of each of the 15 types (every optional field independently present/absent, boundary-biased lengths 0,1,127,128,16383,16384,65534,65535, PUBLISH payload and property section padded to length boundaries, correlated fields, shaped lists) plus how it is built: setter call order, zero setters called or skipped, decoy calls (same setter first with another value), repeated identical calls, read-only probes between calls, caller-owned variadic slices reused afterwards, a value copy (q := *p) at some step, several user properties per variadic call, filters edited in place, and a prelude of unrelated decodes; oracle = WriteTo->ReadPacket round trip compared accessor by accessor with the model and byte-identical re-encoding, and for a third of the cases a second generation (the decoded packet changed through one public setter, written and read again). Non-trivial = at least one optional field present, or a boundary length, or a list with >= 2 elements; distinct = 64-bit FNV fingerprint of (model, call plan).",
 		Assumptions: commonAssumptions},
 	"C02": {QuickShards: 8, ThoroughShards: 16, Level: "exploration",
 		Rule:        "C01 generators restricted to MQTT-well-formed packets; oracle = differential: the independent strict decoder must accept the library's frame and read back exactly the model (absent property = zero value). Non-trivial = frame carries >= 1 property, or a will, or a multi-byte remaining/property length; distinct = fingerprint of the frame.",
@@ -38,49 +38,49 @@ var props = map[string]propCfg{
 		Rule:        "byte strings from eight generators (steered arbitrary bytes, prefixes of valid frames, valid frames with one length field raised/lowered, every type nibble on foreign bodies, CONNECT of another protocol, a defined property in the wrong packet, a property repeated within a section, byte-level mutations) through ReadPacket (contiguous and fragmented readers) and UnmarshalBinary of all 16 exported types; oracle = returns normally and exactly one of packet/error is nil. Non-trivial = input rejected, or accepted but not identical to a library-encoded frame; distinct = fingerprint of (entry point, bytes).",
 		Assumptions: commonAssumptions},
 	"C05": {QuickShards: 8, ThoroughShards: 16, Level: "exploration", Fuzz: []string{"FuzzDecodeBounded"}, FuzzTime: 150 * time.Second,
-		Rule:        "C04-style byte strings weighted towards repeated sections (filter lists, reason-code lists, property lists, subscription identifiers) truncated / empty / inconsistent / very long; oracle = the call returns (watchdog, confirmed alone in a fresh process; complete frames also on a stream that stays open), bytes allocated <= 1 MiB + 512 x frame size, no list of a returned packet has more elements than the frame has bytes, packets returned earlier (last 8 + one sentinel per type) do not change, and a 32x longer list costs <= 200x the thread CPU time (7 list kinds). Non-trivial = frame reaches a repeated section and is malformed there, or has >= 256 list elements; distinct = fingerprint of the frame.",
+		Rule:        "C04-style byte strings weighted towards repeated sections (filter lists, reason-code lists, property lists, subscription identifiers) truncated / empty / inconsistent / very long; oracle = the call returns (watchdog, confirmed alone in a fresh process; complete frames also on a stream that stays open), bytes allocated <= 1 MiB + 512 x frame size, no list of a returned packet has more elements than the frame has bytes, packets returned earlier (last 8 + one sentinel per type) do not change, a 32x longer list / payload / string costs <= 200x the thread CPU time and <= 200x the allocated bytes (13 kinds), a frame with an inflated inner length allocates no more than the intact frame + 16 KiB + 64 x size, and a small frame allocates the same before and right after a huge one. Non-trivial = frame reaches a repeated section and is malformed there, or has >= 256 list elements; distinct = fingerprint of the frame.",
 		Assumptions: append([]string{"allocation is metered with runtime.MemStats.TotalAlloc around a single-goroutine call", "hang threshold 10 s / 1 GiB heap per call, re-confirmed alone"}, commonAssumptions...)},
 	"C06": {QuickShards: 8, ThoroughShards: 16, Level: "exploration",
-		Rule:        "sequences of 1..8 frames (valid frames from both encoders, content-malformed frames, zero-length frames) followed by arbitrary trailing bytes on one counting reader offered as scripted reader, bytes.Reader, bytes.Buffer, bufio.Reader or a reader with a chunk-wise Len(), contiguous / bytewise / last bytes with io.EOF / stream staying open, after a prelude of unrelated (also truncated) reads; oracle = after every call exactly the bytes of the frames so far were consumed (frame length from the reference framing parser), every result equals the result of reading that frame alone before the stream was touched (PUBLISH frames using / defining a few topic aliases included), then io.EOF. Non-trivial = >= 2 frames and a rejected or zero-length frame that is not last; distinct = fingerprint of the stream.",
+		Rule:        "sequences of 1..8 frames (valid frames from both encoders, content-malformed frames, zero-length frames) followed by arbitrary trailing bytes on one counting reader offered as scripted reader, bytes.Reader, bytes.Buffer, bufio.Reader or a reader with a chunk-wise Len(), a reader with SetReadDeadline whose peer is (virtually) slow, a bufio.Reader reused after a timeout, contiguous / bytewise / with a long run of empty reads / last bytes with io.EOF / stream staying open, after a prelude of unrelated (also truncated) reads, optionally changing every returned packet before the next call; oracle = after every call exactly the bytes of the frames so far were consumed (frame length from the reference framing parser), every result equals the result of reading that frame alone before the stream was touched (PUBLISH frames using / defining a few topic aliases included), every returned packet and error is looked at again after the whole stream was read, then io.EOF. Non-trivial = >= 2 frames and a rejected or zero-length frame that is not last; distinct = fingerprint of the stream.",
 		Assumptions: append([]string{refAssumption}, commonAssumptions...)},
 	"C07": {QuickShards: 8, ThoroughShards: 16, Level: "exploration",
-		Rule:        "frames x delivery schedules allowed by io.Reader (all compositions of the frame length for short frames, generated schedules with zero-length reads and data+EOF endings for long ones, optionally behind another frame on the same stream with a read boundary inside the next header) x concrete reader types; oracle = metamorphic: same packet (accessors and re-encoding) or same rejection as one contiguous read. Non-trivial = schedule splits the body or the remaining-length field, contains a (0,nil) read, or ends with data+EOF; distinct = fingerprint of (frame, schedule).",
+		Rule:        "frames x delivery schedules allowed by io.Reader (all compositions of the frame length for short frames, generated schedules with zero-length reads (also runs of 5..1000) and data+EOF endings for long ones up to 32 MiB, optionally behind another frame on the same stream with a read boundary inside the next header) x concrete reader types; oracle = metamorphic: same packet (accessors and re-encoding) or same rejection as one contiguous read. Non-trivial = schedule splits the body or the remaining-length field, contains a (0,nil) read, or ends with data+EOF; distinct = fingerprint of (frame, schedule).",
 		Assumptions: commonAssumptions},
 	"C08": {QuickShards: 8, ThoroughShards: 16, Level: "fault_enumeration",
-		Rule:        "frames x every cut offset k in [0,len) (all k for frames <= 512 bytes) x failure kind (EOF, a fresh error value, io.ErrUnexpectedEOF itself, errors wrapping io.EOF / io.ErrUnexpectedEOF, timeout, deadline, closed pipe; sticky or reported once; alone or together with the last bytes) x delivery of the prefix x reader type; oracle = nil packet and non-nil error, errors.Is(err, injected), errors.Is(err, io.EOF) at k = 0, and a packet only when every byte was delivered. Non-trivial = k inside the body; distinct = fingerprint of (frame, k, failure kind, delivery).",
+		Rule:        "frames x every cut offset k in [0,len) (all k for frames <= 512 bytes) x failure kind (EOF, a fresh error value, io.ErrUnexpectedEOF itself, errors wrapping io.EOF / io.ErrUnexpectedEOF, timeout, deadline, closed pipe, net.ErrClosed, *net.OpError, errors wrapping those, errors.Join, Errno, an error with its own Is method; sticky or reported once; alone or together with the last bytes) x delivery of the prefix x reader type; oracle = nil packet and non-nil error, errors.Is(err, injected), errors.Is(err, io.EOF) at k = 0, and a packet only when every byte was delivered. Non-trivial = k inside the body; distinct = fingerprint of (frame, k, failure kind, delivery).",
 		Assumptions: commonAssumptions},
 	"C09": {QuickShards: 8, ThoroughShards: 16, Level: "exploration", Fuzz: []string{"FuzzMustReject"}, FuzzTime: 150 * time.Second,
 		Rule:        "valid frames from the reference encoder x (a) every cut strictly inside a field per the reference field map with remaining length patched, (b) each variable byte integer replaced by a 5-byte continuation, (c) each of the seven boolean properties x values 2..255, (d) each property position x all 229 undefined identifiers; oracle = ReadPacket returns (nil, error); each constructed frame is also classified from its bytes alone by the reference decoder (agreement counted under coverage.classes). Every mutated frame is non-trivial; distinct = fingerprint of the mutated frame.",
 		Assumptions: append([]string{refAssumption}, commonAssumptions...)},
 	"C10": {QuickShards: 8, ThoroughShards: 16, Level: "exploration",
-		Rule:        "C01 packets plus malformed-but-constructible ones x writers that succeed, fail before accepting anything, or accept exactly k bytes (every k for frames <= 256 bytes); oracle = bytes seen are exactly one frame under the reference framing parser, returned n = bytes accepted = 'N bytes' in String(), writer errors are returned with n = k, Undefined writes nothing. Non-trivial = multi-byte remaining/property length, optional section present, or a faulting writer; distinct = fingerprint of (frame, writer).",
+		Rule:        "C01 packets plus malformed-but-constructible ones x writers that succeed, fail before accepting anything, or accept exactly k bytes (every k for frames <= 256 bytes), optionally with WriteByte / WriteString / ReadFrom, plus bytes.Buffer / bufio.Writer (empty or already holding bytes) and strings.Builder; oracle = bytes seen are exactly one frame under the reference framing parser, returned n = bytes accepted = 'N bytes' in String(), writer errors are returned with n = k, Undefined writes nothing. Non-trivial = multi-byte remaining/property length, optional section present, or a faulting writer; distinct = fingerprint of (frame, writer).",
 		Assumptions: append([]string{refAssumption}, commonAssumptions...)},
 	"C11": {QuickShards: 8, ThoroughShards: 16, Level: "exploration",
-		Rule:        "C01 packets weighted to CONNECT with several will properties x interleavings of read-only operations between >= 16 encodings, plus encodings of the same case list in several fresh processes; oracle = all encodings byte-equal and accessor snapshot unchanged. Non-trivial = encoder emits >= 2 will properties or >= 3 read-only operations interleaved; distinct = fingerprint of (model, operation list).",
+		Rule:        "C01 packets weighted to CONNECT with several will properties x interleavings of read-only operations between >= 16 encodings, 70 000 encodings of one packet per type in one process, encodings before and after a 1.2 s pause, plus encodings of the same case list in several fresh processes; oracle = all encodings byte-equal and accessor snapshot unchanged. Non-trivial = encoder emits >= 2 will properties or >= 3 read-only operations interleaved; distinct = fingerprint of (model, operation list).",
 		Assumptions: append([]string{"Go randomises map iteration per range statement and hash seeds per process"}, commonAssumptions...)},
 	"C12": {QuickShards: 8, ThoroughShards: 16, Level: "exploration",
-		Rule:        "state-machine sequences of public setter/adder calls with boundary-biased arguments on a fresh packet of each type, compared after every step with a record-of-fields model (including derived flags), and at the end the encoded frame is read by the strict reference decoder. Non-trivial = a setter called twice with different values or reset to zero after non-zero; distinct = fingerprint of the call sequence.",
+		Rule:        "state-machine sequences of public setter/adder calls with boundary-biased arguments on a fresh packet of each type, (bursts of one setter, occasional 2 MiB payloads, one reused TopicFilter variable) compared after every step with a record-of-fields model (including derived flags); after (almost) every step the encoded frame is read by the strict reference decoder, and a second packet that was handed the same argument slices must keep them. Non-trivial = a setter called twice with different values or reset to zero after non-zero; distinct = fingerprint of the call sequence.",
 		Assumptions: append([]string{refAssumption}, commonAssumptions...)},
 	"C13": {Race: true, QuickShards: 8, ThoroughShards: 16, Level: "exploration",
-		Rule:        "packets of every type (CONNECT sharing its will with direct use) x 2..8 goroutines running generated lists of read-only operations from a common barrier, under the Go race detector; oracle = no race report and every concurrent WriteTo equals the sequential bytes. Non-trivial = >= 2 goroutines with a WriteTo in one and a different operation in another; distinct = fingerprint of (model, operation lists).",
+		Rule:        "packets of every type built from the constructor or the zero value, or decoded (CONNECT sharing its will with direct use) x 2..8 goroutines running generated lists of read-only operations from a common barrier, under the Go race detector; oracle = no race report and every concurrent WriteTo equals the sequential bytes. Non-trivial = >= 2 goroutines with a WriteTo in one and a different operation in another; distinct = fingerprint of (model, operation lists).",
 		Assumptions: append([]string{"Go race detector (happens-before; no false positives, finds races on executed paths)"}, commonAssumptions...)},
 	"C14": {QuickShards: 8, ThoroughShards: 16, Level: "exploration",
-		Rule:        "state-machine histories over a pool of packets and the byte slices they were decoded from: decode (UnmarshalBinary from a retained slice, ReadPacket from a reused buffer), scribble over a retained slice, encode, apply a setter, hand a value returned by an accessor of one packet to a setter of another (or of a new packet of that type) and go on setting both, decode the same frame again; oracle = every packet not named by the action keeps its accessor snapshot and repeated decodes of a frame observe equal. Non-trivial = a scribble after decoding a frame with a non-empty string/binary/raw field with >= 2 live packets; distinct = fingerprint of the history.",
+		Rule:        "state-machine histories over a pool of packets and the byte slices they were decoded from: decode (UnmarshalBinary from a retained slice, ReadPacket from a reused buffer), scribble over a retained slice, encode, apply a setter, hand a value returned by an accessor of one packet to a setter of another (or of a new packet of that type) and go on setting both, decode the same frame again (twin append), decode into a value already in the pool, attach a pool PUBLISH as a will, read through one pooled bufio.Reader (also after a timeout); oracle = every packet not named by the action keeps its accessor snapshot and repeated decodes of a frame observe equal. Non-trivial = a scribble after decoding a frame with a non-empty string/binary/raw field with >= 2 live packets; distinct = fingerprint of the history.",
 		Assumptions: commonAssumptions},
 	"C15": {QuickShards: 1, ThoroughShards: 1, Level: "exploration", ThoroughTO: 90 * time.Minute,
-		Rule:        "variable byte integers through the verif-tagged wrappers: values (thorough: all 2^28; quick: boundary neighbourhoods + stride sweep) encoded and compared with the reference minimal form, decoded by both decoders (value, bytes consumed); byte sequences (thorough: all of length <= 4 and all 2^28 continuation prefixes x 5 fifth bytes; quick: all of length <= 2 + drawn longer ones) for decoder agreement and rejection. Non-trivial = value needing >= 2 bytes or a sequence that must be rejected; distinct = the value / sequence itself.",
+		Rule:        "variable byte integers through the verif-tagged wrappers: values (thorough: all 2^28; quick: boundary neighbourhoods + stride sweep) encoded and compared with the reference minimal form, decoded by both decoders (value, bytes consumed); byte sequences (thorough: all of length <= 4 and all 2^28 continuation prefixes x 5 fifth bytes; quick: all of length <= 2 + drawn longer ones) for decoder agreement and rejection; at the use sites: property lengths 2 097 151..2 097 153 written and read back, remaining lengths 268 435 450 and 268 435 455 written through WriteTo. Non-trivial = value needing >= 2 bytes or a sequence that must be rejected; distinct = the value / sequence itself.",
 		Assumptions: append([]string{"hook verif_export.go exposes the unexported codec unchanged", refAssumption}, commonAssumptions...)},
 	"C16": {QuickShards: 1, ThoroughShards: 4, Level: "exploration",
 		Rule:        "all 256 first bytes x bodies valid for the selected type from the reference encoder (incl. remaining length 0 where allowed; a quarter of the bodies unconstrained, judged only when a packet is returned); oracle = dynamic type by table on the high nibble, PUBLISH DUP/QoS/RETAIN equal the bits, re-encoding reproduces the first byte, Undefined carries the body. Non-trivial = low nibble differs from the constructor default; distinct = fingerprint of the frame.",
 		Assumptions: append([]string{refAssumption}, commonAssumptions...)},
 	"C17": {QuickShards: 8, ThoroughShards: 16, Level: "exploration",
-		Rule:        "Publish over the complete condition cube topic x alias x QoS 0..3 x packet id plus generated other fields; Subscribe over filter count, subscription identifier around 268435455, all 256 option bytes, empty/non-empty filters; built through the API and decoded from the wire, stand-alone, after being passed to Connect.SetWill, and as the Will() of a decoded CONNECT; oracle = reference predicate from the statement equals error-ness of WellFormed and presence of the 'malformed!' suffix in String(). Non-trivial = accepting side of one condition while another field is at a suspicious value; distinct = fingerprint of the case.",
+		Rule:        "Publish over the complete condition cube topic x alias x QoS 0..3 x packet id plus generated other fields; Subscribe over filter count, subscription identifier around 268435455, all 256 option bytes, empty/non-empty filters; built through the API and decoded from the wire, stand-alone, after being passed to Connect.SetWill, as the Will() of a decoded CONNECT, with zero values made explicit, and decoded into a value that was used and rendered before; oracle = reference predicate from the statement equals error-ness of WellFormed and presence of the 'malformed!' suffix in String(). Non-trivial = accepting side of one condition while another field is at a suspicious value; distinct = fingerprint of the case.",
 		Assumptions: commonAssumptions},
 	"C18": {QuickShards: 8, ThoroughShards: 16, Level: "exploration",
-		Rule:        "CONNECT models (with/without will, properties, auth fields) x pairs of equally long non-empty credential values incl. values copied from other fields, built through the API and decoded from frames; oracle = non-interference: Dump and String identical for both. Non-trivial = credentials differ in >= 1 byte; distinct = fingerprint of (model, credential pair).",
+		Rule:        "CONNECT models (with/without will, properties, auth fields) x pairs of equally long non-empty credential values incl. values copied from other fields, built through the API (also with placeholder credentials first) and decoded from frames (also followed by the setters, or into a value reused for an anonymous frame), method names from a dictionary, occasionally user names beyond 65 535 bytes; oracle = non-interference: Dump and String identical for both. Non-trivial = credentials differ in >= 1 byte; distinct = fingerprint of (model, credential pair).",
 		Assumptions: commonAssumptions},
 	"C19": {QuickShards: 8, ThoroughShards: 16, Level: "exploration",
-		Rule:        "zero values and constructor values of every exported type, packets under construction (prefixes of setter sequences, then calls whose Go parameter type is wider than the MQTT range, e.g. SetSubscriptionID(-1), SetQoS(200)), packets decoded from arbitrary bytes (and half-filled values left by failing decodes), all 256 values of each rendered byte; oracle = String and Dump return normally. Non-trivial = value not obtainable from a constructor plus the unit tests' setter order (decoded, half-built, out-of-table byte); distinct = fingerprint of the value's origin.",
+		Rule:        "zero values and constructor values of every exported type, packets under construction (prefixes of setter sequences, then calls whose Go parameter type is wider than the MQTT range, e.g. SetSubscriptionID(-1), SetQoS(200)), packets decoded from arbitrary bytes (and half-filled values left by failing decodes), reason strings related to reason-code names, Dump(w, nil), all 256 values of each rendered byte; oracle = String and Dump return normally. Non-trivial = value not obtainable from a constructor plus the unit tests' setter order (decoded, half-built, out-of-table byte); distinct = fingerprint of the value's origin.",
 		Assumptions: commonAssumptions},
 }
 
